@@ -1,6 +1,6 @@
 SPECIFICATION GSpec
 CONSTANTS
-  MaxExtra = 3
+  MaxExtra = 4
   MaxExtraWhenMissing = 1
 INVARIANT Emit1
 CHECK_DEADLOCK FALSE
